@@ -411,6 +411,26 @@ MUTANTS = [
          old="                    self.push_op(Op::Copy, &[register, local_register]);\n                    CompileNodeOutput::with_assigned(register)", new="                    CompileNodeOutput::with_assigned(local_register)", expect="V-codegen2::Compiler::compile_load_id::"),
     dict(name="codegen2_load_id_unknown_name_not_loaded_when_unused", kind="break", prop="C01", units=["V-codegen2"], file="crates/bytecode/src/compiler.rs",
          old="                let register = self.push_register()?;\n                self.compile_load_non_local(register, id);\n                self.pop_register()?;\n                result", new="                result", expect="V-codegen2::Compiler::compile_load_id::local_in_place_other_names_loaded_by_name"),
+    dict(name="codegen2_f40_export_reports_a_temporary_nobody_wants", kind="break", prop="C01", units=["V-codegen2"], file="crates/bytecode/src/compiler.rs",
+         old="""                match ctx.result_register {
+                    ResultRegister::None => {
+                        // The register was only needed for exporting the expression's entries
+                        if result.is_temporary {
+                            self.pop_register()?;
+                        }
+                        Ok(CompileNodeOutput::none())
+                    }
+                    _ => Ok(result),
+                }""", new="                Ok(result)", expect="V-codegen2::Compiler::compile_export::"),
+    dict(name="codegen2_export_loop_exit_lands_on_the_back_jump", kind="break", prop="C18", units=["V-codegen2"], file="crates/bytecode/src/compiler.rs",
+         old="""        self.push_jump_back_op(Op::JumpBack, &[], iter_start_ip)?;
+
+        // Finished, update the IterNextTemp offset and clean up the temporary registers
+        self.update_offset_placeholder(iter_finished_offset)?;""", new="""        // Finished, update the IterNextTemp offset and clean up the temporary registers
+        self.update_offset_placeholder(iter_finished_offset)?;
+        self.push_jump_back_op(Op::JumpBack, &[], iter_start_ip)?;""", expect="V-codegen2::Compiler::compile_export_iterable::every_entry_exported_loop_left_when_exhausted"),
+    dict(name="codegen2_export_iterable_registers_not_released", kind="break", prop="C01", units=["V-codegen2"], file="crates/bytecode/src/compiler.rs",
+         old="        self.update_offset_placeholder(iter_finished_offset)?;\n        self.truncate_register_stack(stack_count)?;", new="        self.update_offset_placeholder(iter_finished_offset)?;", expect="V-codegen2::Compiler::compile_export_iterable::temporaries_released"),
     # ---- V-callseq
     dict(name="callseq_piped_value_last", kind="break", prop="C02", units=["V-callseq"], file="crates/bytecode/src/compiler.rs",
          old="""        let arg_offset = if let Some(piped_arg) = piped_arg {
